@@ -619,6 +619,12 @@ M('C08', 'notation-offset-reads-del-short', SS, '        self.flags = packet[:1]
   '        self.flags = packet[:1]\n        nlen = self.bytes_to_int(packet[4:6])\n        vlen = self.bytes_to_int(packet[6:8])\n        del packet[:7]\n', 'C08.a')
 M('C08', 'dispatch-factory-gets-root-class', TY, '    def __call__(cls, packet=None):  # NOQA\n        def _makeobj(cls):\n            obj = object.__new__(cls)\n            obj.__init__()\n            return obj\n\n',
   '    @staticmethod\n    def _makeobj(cls):\n        obj = object.__new__(cls)\n        obj.__init__()\n        return obj\n\n    def __call__(cls, packet=None):  # NOQA\n', 'C08.g', more=[(TY, '            obj = _makeobj(ncls)\n', '            obj = MetaDispatchable._makeobj(rcls)\n'), (TY, '            obj = _makeobj(cls)\n', '            obj = MetaDispatchable._makeobj(cls)\n')])
+M('C08', 'onepass-pop-reads-swapped', PK, '        self.sigtype = packet[0]\n        del packet[0]\n\n        self.halg = packet[0]\n        del packet[0]\n\n        self.pubalg = packet[0]\n        del packet[0]\n\n        self.signer = packet[:8]\n        del packet[:8]\n\n        self.nested = (packet[0] == 1)\n        del packet[0]',
+  '        self.sigtype = packet.pop(0)\n        self.pubalg = packet.pop(0)\n        self.halg = packet.pop(0)\n\n        self.signer = packet[:8]\n        del packet[:8]\n\n        self.nested = (packet.pop(0) == 1)', 'C08.c')
+M('C08', 'uri-bytes-constructor-utf16', SS, '        _bytes += self.uri.encode()\n        return _bytes',
+  "        _bytes += bytes(self.uri, 'utf-16')\n        return _bytes", 'C08.f')
+M('C08', 'filename-str-constructor-latin1', PK, '        self.filename = packet[:fnl].decode()\n',
+  "        self.filename = str(packet[:fnl], 'latin-1')\n", 'C08.f')
 M('C08', 'uid-writer-codec-swapped', PK, "textenc = 'utf-8' if not self._encoding_fallback else 'charmap'",
   "textenc = 'utf-8' if self._encoding_fallback else 'charmap'", 'C08.f')
 M('C08', 'uid-writer-ignores-fallback', PK, "textenc = 'utf-8' if not self._encoding_fallback else 'charmap'",
@@ -739,6 +745,20 @@ T('C08', 'twin-pkesk-pkalg-get', PK, '        ct = _c.get(self._pkalg, None)\n  
   '        ctcls = _c.get(self._pkalg)\n        if ctcls is None:\n            self.ct = None\n\n        else:\n            self.ct = ctcls()\n', more=[(PK, "        _bytes += self.ct.__bytearray__() if self.ct is not None else b'\\x00' * (self.header.length - 10)\n", "        if self.ct is not None:\n            _bytes += self.ct.__bytearray__()\n\n        else:\n            _bytes += b'\\x00' * (self.header.length - 10)\n")])
 T('C08', 'twin-hashed-area-peek-spelling', FL, '        hl = self.bytes_to_int(packet[:2])\n        hashed_raw = packet[:2 + hl]\n        del packet[:2]\n',
   '        count_octets = packet[:2]\n        hl = self.bytes_to_int(count_octets)\n        area_end = hl + 2\n        hashed_raw = packet[:area_end]\n        del packet[:2]\n')
+T('C08', 'twin-onepass-pop-reads', PK, '        self.sigtype = packet[0]\n        del packet[0]\n\n        self.halg = packet[0]\n        del packet[0]\n\n        self.pubalg = packet[0]\n        del packet[0]\n\n        self.signer = packet[:8]\n        del packet[:8]\n\n        self.nested = (packet[0] == 1)\n        del packet[0]',
+  '        self.sigtype = packet.pop(0)\n        self.halg = packet.pop(0)\n        self.pubalg = packet.pop(0)\n\n        self.signer = packet[:8]\n        del packet[:8]\n\n        self.nested = (packet.pop(0) == 1)')
+T('C08', 'twin-onepass-setattr-loop', PK, '        self.sigtype = packet[0]\n        del packet[0]\n\n        self.halg = packet[0]\n        del packet[0]\n\n        self.pubalg = packet[0]\n        del packet[0]\n\n        self.signer = packet[:8]\n        del packet[:8]\n\n        self.nested = (packet[0] == 1)\n        del packet[0]',
+  "        for attr in ('sigtype', 'halg', 'pubalg'):\n            setattr(self, attr, packet[0])\n            del packet[0]\n\n        self.signer = packet[:8]\n        del packet[:8]\n\n        self.nested = (packet[0] == 1)\n        del packet[0]")
+T('C08', 'twin-uri-bytes-constructor', SS, '        _bytes += self.uri.encode()\n        return _bytes',
+  "        _bytes += bytes(self.uri, 'utf-8')\n        return _bytes")
+T('C08', 'twin-filename-str-constructor', PK, '        self.filename = packet[:fnl].decode()\n',
+  "        self.filename = str(packet[:fnl], 'utf-8')\n")
+T('C08', 'twin-literal-empty-early-return', PK, '        self.mtime = packet[:4]\n        del packet[:4]\n\n        self._contents',
+  '        self.mtime = packet[:4]\n        del packet[:4]\n\n        if self.header.length - (6 + fnl) == 0:\n            self._contents = bytearray()\n            return\n\n        self._contents')
+T('C08', 'twin-notation-lengths-to-bytes', SS, '        _bytes += self.int_to_bytes(len(name), 2)\n        _bytes += self.int_to_bytes(len(value), 2)\n',
+  "        _bytes += len(name).to_bytes(2, 'big')\n        _bytes += len(value).to_bytes(2, 'big')\n")
+T('C08', 'twin-seipd-length-locals', PK, '        self.ct = packet[:self.header.length - 1]\n        del packet[:self.header.length - 1]\n\n    def encrypt(self, key, alg, data):',
+  '        hlen = self.header.length\n        body = hlen - 1\n        self.ct = packet[:body]\n        del packet[:body]\n\n    def encrypt(self, key, alg, data):')
 T('C08', 'twin-notation-offset-reads', SS, '        self.flags = packet[:1]\n        del packet[:4]\n        nlen = self.bytes_to_int(packet[:2])\n        del packet[:2]\n        vlen = self.bytes_to_int(packet[:2])\n        del packet[:2]\n',
   '        self.flags = packet[:1]\n        nlen = self.bytes_to_int(packet[4:6])\n        vlen = self.bytes_to_int(packet[6:8])\n        del packet[:8]\n')
 T('C08', 'twin-hashed-area-count-from-bytes', FL, '        hl = self.bytes_to_int(packet[:2])\n        hashed_raw = packet[:2 + hl]\n        del packet[:2]\n',
